@@ -273,6 +273,11 @@ def run(run):
                 'traced-byte growth between the 1st and 2nd batch of identical evaluations in a fresh subprocess, with one evaluator and '
                 'with a fresh Evaluator every 50 calls')
     run.exhaustive = True
+    # code -> spec: random multi-sheet workbooks under random histories, every evaluation judged by TLC (Trace_Local)
+    from checks import wbdrive
+    v = wbdrive.run_driver(run, 1200 if run.tier == 'quick' else 20000, mix='c05')
+    if v.get('ok', 0) < 2000:
+        raise xl.MachineryError(f'random workbook driver is vacuous: {dict(v)}')
     run.assumptions.append('footprint is measured with gc.get_objects() and tracemalloc after gc.collect(); slack 200 objects / 128 KiB per batch')
 
 
